@@ -66,7 +66,15 @@ def make_ragged(spec, path):
     for ln in spec['lens']:
         items.append(np.ascontiguousarray(pool[pos:pos + ln]))
         pos += ln
-    if items and spec.get('churn'):
+    churn = spec.get('churn')
+    if items and churn == 'trunc-last':
+        # the last thing that happened to the handle is a truncation (after it had been asked for code at the larger length)
+        extra = [np.ascontiguousarray(pool[:1]), np.ascontiguousarray(pool[:min(len(pool), 2)])]
+        ra = darr.asraggedarray(path, items + extra, dtype=dt, indextype=spec['it'], accessmode='r+')
+        ra.readcode(spec['lang'])
+        ra.readcodelanguages
+        darr.truncate_raggedarray(ra, len(items))
+    elif items and churn:
         # reach the same final state through a history on ONE live handle: grow, call readcode, shrink, grow differently
         ra = darr.asraggedarray(path, items[:1], dtype=dt, indextype=spec['it'], accessmode='r+')
         filler = [np.ascontiguousarray(pool[:min(len(pool), 1 + j % 2)]) for j in range(len(items) - 1)]
@@ -139,6 +147,8 @@ def _execute(ctx, spec):
         out.cls('no-values')
     if spec.get('churn') and n:
         out.cls('after-history-on-live-handle')
+        if isinstance(spec['churn'], str):
+            out.cls('churn:' + spec['churn'])
     out.nontrivial = n >= 2 or 0 in lens or len(atom) >= 1
     with ctx.scratch() as d:
         root, apath, other = layout(d)
@@ -304,6 +314,10 @@ def extra_specs():
     for lang in LANGS:
         for lens in ([2, 3, 1], [1, 0, 4, 2]):
             yield {'lang': lang, 'vt': 'int16', 'it': 'int32', 'atom': [2], 'lens': lens, 'bo': '<', 'pm': 'rel', 'seed': 3, 'churn': True}
+        for lens in ([3], [2, 1], [1, 0, 4, 2], [2, 0]):
+            for churn in ('trunc-last',):
+                yield {'lang': lang, 'vt': 'float32', 'it': 'int64', 'atom': [], 'lens': lens, 'bo': '<', 'pm': 'rel', 'seed': 5, 'churn': churn}
+                yield {'lang': lang, 'vt': 'int16', 'it': 'int32', 'atom': [2], 'lens': lens, 'bo': '>', 'pm': 'abs', 'seed': 6, 'churn': churn}
     # path modes
     for lang in LANGS:
         for pm in ('base', 'abs'):
@@ -319,7 +333,8 @@ def st_spec(draw):
     if sum(lens) == 0:
         lens[draw(st.integers(0, len(lens) - 1))] = 1
     return {'lang': draw(st.sampled_from(LANGS)), 'vt': draw(st.sampled_from(NUMTYPES)), 'it': draw(st.sampled_from(INDEXTYPES)), 'atom': atom,
-            'lens': lens, 'bo': draw(st.sampled_from('<>')), 'pm': draw(st.sampled_from(['rel', 'base', 'abs'])), 'seed': draw(st.integers(0, 2 ** 20)), 'churn': draw(st.booleans()),
+            'lens': lens, 'bo': draw(st.sampled_from('<>')), 'pm': draw(st.sampled_from(['rel', 'base', 'abs'])), 'seed': draw(st.integers(0, 2 ** 20)),
+            'churn': draw(st.sampled_from([False, False, True, 'trunc-last'])),
             'relopen': draw(st.booleans())}
 
 
